@@ -287,6 +287,15 @@ class Sandbox:
         elif how == 'missing_key' and doc is not None:
             del doc['rootOperations']
             data = gzip.compress(json.dumps(doc).encode())
+        elif how == 'bad_field' and doc is not None:
+            # valid gzip, valid JSON, right software / version / name - but one top-level entry has the wrong shape
+            keys = [k for k in sorted(doc) if k not in ('software', 'cacheFileVersion', 'buildName')]
+            bads = [None, 0, 'x', [['x']], {'a': 1}, [1], True]
+            k = keys[arg % len(keys)]
+            doc[k] = bads[(arg // len(keys)) % len(bads)]
+            data = gzip.compress(json.dumps(doc).encode())
+            # the library documents best-effort parsing: such a file may be refused or may be taken for a cache
+            self.dubious = getattr(self, 'dubious', set()) | {hashlib.sha256(data).hexdigest()}
         elif how == 'other_name' and doc is not None:
             doc['buildName'] = 'another build'
             data = gzip.compress(json.dumps(doc).encode())
@@ -318,6 +327,13 @@ class Sandbox:
         if h not in self.cache_serials:
             self.planted[h] = 'X' + how
         self.set_mtime(fn, self.tick())
+
+    def cache_is_dubious(self):
+        fn = self.cache_file()
+        if not getattr(self, 'dubious', None) or not os.path.isfile(fn):
+            return False
+        with open(fn, 'rb') as f:
+            return hashlib.sha256(f.read()).hexdigest() in self.dubious
 
     def destroy(self):
         shutil.rmtree(self.top, ignore_errors=True)
